@@ -7,6 +7,7 @@ mod c01;
 mod c02;
 mod c08;
 mod c17;
+mod c18;
 mod c19;
 mod c16;
 mod c13;
@@ -46,6 +47,8 @@ fn main() {
         "C02" => c02::run(&mut run),
         "C08" => c08::run(&mut run),
         "C17" => c17::run(&mut run),
+        "C18" => c18::run(&mut run),
+        "C18CHILD" => { c18::child(&mut run); return; }
         "C19" => c19::run(&mut run),
         "C16" => c16::run(&mut run),
         "C13" => c13::run(&mut run),
